@@ -143,7 +143,9 @@ class Driver:
         self.reuse_twin = 0.08
         self.alias_twin = 0.25        # equal sub-trees of a rule written once and referred to by a YAML alias (same object twice)
         self.compile_twice = 0.08
+        self.inert_config = 0.15
         self.other_listing = None     # path of a copy of the previous listing of this shard
+        self.other_range_safe = False
         self.count_model_nontrivial = False
         self.macros = None
         self.ws = real.Workspace()
@@ -164,6 +166,7 @@ class Driver:
             if prep.verify(self.ws):
                 if self.prep is not None:
                     self.other_listing = self.ws.write("other.s", self.prep.text)
+                    self.other_range_safe = self._range_safe(self.prep)
                 self.prep = prep
                 self.style = style
                 return prep
@@ -172,6 +175,20 @@ class Driver:
             if self.on_parser_disagreement:
                 self.on_parser_disagreement(self, prep)
         raise RuntimeError("no synthetic listing passes the parser agreement gate: " + prep.why)
+
+    JUMPS = {"call", "callq", "jmp", "jne", "je", "jg", "jge", "jl", "jle", "jz", "jnz"}
+
+    @staticmethod
+    def _range_safe(prep) -> bool:
+        """valid_addr_range reads operand 0 of branch mnemonics as a hexadecimal address: only listings whose branch mnemonics carry
+        one (or an indirect '*' operand) can be run with the option."""
+        import re
+        for _, m, ops in prep.expect:
+            if m in Driver.JUMPS and ops and ops[0] and "*" not in ops[0] and not re.fullmatch(r"[0-9a-f]+", ops[0]):
+                return False
+            if m in Driver.JUMPS and ops and re.fullmatch(r"[0-9a-f]+", ops[0] or "") and int(ops[0], 16) >= 0xfffffffffff0:
+                return False
+        return True
 
     def run_pattern(self, pattern, desc, base_found: bool, prep=None):
         """Evaluate one pattern on the current listing under the configured flag sets.
@@ -203,6 +220,19 @@ class Driver:
                     # an omitted flag is off: name only the flags that are on (the previous rule of this process had other settings)
                     doc["config"] = {k: v for k, v in doc["config"].items() if v}
                     ctx.event("rules_naming_only_the_flags_that_are_on")
+            if ctx.rng.random() < self.inert_config:
+                # configuration that cannot change the outcome on this input: a valid_addr_range no branch of the listing lands in (the
+                # observer is installed but never tags), section names / style (options of the binary route only)
+                extra_cfg = {}
+                if self._range_safe(prep) and ctx.rng.random() < 0.6:
+                    extra_cfg["valid_addr_range"] = {"min": "0xfffffffffff0", "max": "fffffffffff8"}
+                if ctx.rng.random() < 0.4:
+                    extra_cfg["sections"] = ctx.rng.choice([[".text"], [".init", ".text"], ["nosuch"]])
+                if ctx.rng.random() < 0.3:
+                    extra_cfg["style"] = "att"
+                if extra_cfg:
+                    doc["config"] = {**(doc.get("config") or {}), **extra_cfg}
+                    ctx.event("rules_with_inert_config_keys")
             doc["pattern"] = share_equal_subtrees(pattern) if ctx.rng.random() < self.alias_twin else pattern
             text = real.dump_rule(doc)
             if "*id0" in text:
@@ -271,7 +301,8 @@ class Driver:
                     c = dsl.case_doc(text, prep, desc + " / compiled twice")
                     c["compile_twice"] = True
                     ctx.disagreement(c, why)
-            if o.status == "ok" and self.other_listing and ctx.rng.random() < self.reuse_twin:
+            if o.status == "ok" and self.other_listing and ctx.rng.random() < self.reuse_twin and (
+                    self.other_range_safe or "valid_addr_range" not in (doc.get("config") or {})):
                 # one matcher object used on another listing first, then on this one: what it reports for this listing
                 # is what a fresh object reports (nothing of the earlier input is carried over)
                 search = ctx.rng.choice(["all", "first"])
